@@ -1,8 +1,13 @@
 import IceModel.Lemmas.ErrFlowSyntax
 import IceModel.Lemmas.ErrFlowSem
 import IceModel.Lemmas.ErrFlowRun
+import IceModel.Lemmas.ErrFlowArea
 /-
   Error flow (C12, C19): what "every fallible call is immediately checked" MEANS.
+
+  GENERIC PART: nothing here depends on the generated facts (no import of `IceModel.Gen`).  The facts
+  about the functions of the package are in `Props/ErrFlowWrite.lean` (C12), `Props/ErrFlowRead.lean`
+  (C19), `Props/ErrFlowPersist.lean` (C11) and, whole-package, `Props/ErrFlowAll.lean`.
 
   `Bridge.ErrFlow.unchecked` is a syntactic test on the flat event lists `Gen.ErrFlow.flows` that the
   translator (`/verif/facts/errflow.go`) extracts from every function whose last result is an `error`.
@@ -24,7 +29,8 @@ import IceModel.Lemmas.ErrFlowRun
      While it is nil, `R err` may return anything (`Exec.retOther`: `return ErrClosed`, `return n, err`).
   A4 a call "fails" iff its error result is non-nil; sentinels (`io.EOF`, `vellum.ErrIteratorDone`)
      are failures in this sense.  `fmt.Errorf` never returns nil (`alwaysFails`); it is the only callee
-     bound by an `F` inside a check in this package (`flows_wrappers`).
+     bound by an `F` inside a check in this package (`write_wrappers`, `read_wrappers`, `persist_wrappers`,
+     `flows_wrappers`).
   A5 conditions and loop counts are unknown: an unguarded block (`if`, `else`, `for`, `range`,
      `switch`, `case`, `select`) runs 0..n times whatever the state; only `{:err` is deterministic.
      A jump (break / continue / goto) may leave any number of enclosing blocks, start the next round of
@@ -37,12 +43,9 @@ import IceModel.Lemmas.ErrFlowRun
   A7 only the LAST result (the error) of a function is modelled.
 -/
 namespace Ice.Props.ErrFlow
-open Ice Ice.Gen Ice.Bridge.ErrFlow Ice.ErrFlow
+open Ice Ice.Bridge.ErrFlow Ice.ErrFlow
 
 /-! ## 1. structured programs and the parser -/
-
-/-- every flat event list of the package parses (balanced braces, known events only) -/
-theorem parse_flows_ok : ∀ f ∈ ErrFlow.flows, (parse f.2).isSome := by decide +kernel
 
 /-- the parser inverts the translator's flattening, and is complete -/
 theorem parse_roundtrip (l : List Ev) (p : Prog) : parse l = some p ↔ flat p = l :=
@@ -52,23 +55,14 @@ theorem parse_roundtrip (l : List Ev) (p : Prog) : parse l = some p ↔ flat p =
 instance : DecidableEq Prog := fun p q =>
   decidable_of_iff (flat p = flat q) ⟨flat_injective, congrArg flat⟩
 
-/-- the structured program of a function of the package (`[]` for an unknown name) -/
-def progOf (name : String) : Prog :=
-  match ErrFlow.flows.lookup name with
-  | some l => (parse l).getD []
-  | none => []
-
-/-- function names are unique in `flows`, so `progOf` picks THE flow of a function -/
-theorem flows_names_nodup : (ErrFlow.flows.map (·.1)).Nodup := by decide +kernel
-
-theorem progOf_flat : ∀ f ∈ ErrFlow.flows, flat (progOf f.1) = f.2 := by decide +kernel
-
-/-- e.g. `Segment.WriteTo` (write.go): data, footer, flush, each checked, two of them wrapped -/
-theorem progOf_Segment_WriteTo : progOf "Segment.WriteTo" =
-    [.call "WriteTo", .block true [.call "Errorf", .ret true],
-     .call "persistFooter", .block true [.call "Errorf", .ret true],
-     .call "Flush", .block true [.ret true],
-     .ret false] := by decide +kernel
+/-- a program the size of `Segment.WriteTo` (write.go): data, footer, flush, each checked, two of them
+    wrapped; used below to show that hypotheses are satisfiable (`ErrFlowPersist.progOf_Segment_WriteTo`
+    shows it IS that function's program) -/
+def writeToShape : Prog :=
+  [.call "WriteTo", .block true [.call "Errorf", .ret true],
+   .call "persistFooter", .block true [.call "Errorf", .ret true],
+   .call "Flush", .block true [.ret true],
+   .ret false]
 
 /-! ## 2. the discipline, flat and structured -/
 
@@ -83,10 +77,6 @@ theorem unchecked_of_parse {l : List Ev} {p : Prog} (h : parse l = some p) :
 theorem disc_iff (p : Prog) :
     Disc p ↔ unchecked (flat p) = [] ∧ ∀ w ∈ wrappers p, alwaysFails w = true := by
   rw [unchecked_flat]; rfl
-
-/-- in the package, the call inside a wrapping check `{:err F w R err }` is always `fmt.Errorf` -/
-theorem flows_wrappers : ∀ f ∈ ErrFlow.flows, ∀ w ∈ wrappers (progOf f.1), w = "Errorf" := by
-  decide +kernel
 
 /-! ## 3. soundness of the discipline -/
 
@@ -169,11 +159,13 @@ theorem dropped_unnoticed {p : Prog} {tr tr' : List Step} {r : Result} (hrun : R
   obtain ⟨o, hex, hr⟩ := hrun
   exact ⟨o, exec_forget hex tr' h, hr⟩
 
-/-- e.g. `chunkedIntCoder.Add` discards the error of `Close`; it can fail and `Add` return nil -/
+/-- e.g. `{ D Close } { F Write {:err R err } } R nil` (the shape of `chunkedIntCoder.Add`): the
+    discarded `Close` can fail and the function return nil -/
 theorem dropped_unnoticed_example :
-    unchecked (flat (progOf "chunkedIntCoder.Add")) = [] ∧
-    Run (progOf "chunkedIntCoder.Add") [⟨true, "Close", true⟩, ⟨false, "Write", false⟩]
-      (.returned false) := by
+    let p : Prog := [.block false [.drop "Close"], .block false [.call "Write", .block true [.ret true]],
+                     .ret false]
+    unchecked (flat p) = [] ∧
+    Run p [⟨true, "Close", true⟩, ⟨false, "Write", false⟩] (.returned false) := by
   refine ⟨by decide +kernel, ?_⟩
   exact run_Run (fuel := 10) (orc := [1, 1, 0, 1]) (orc' := []) (o := .ret false) (by decide +kernel)
 
@@ -192,213 +184,24 @@ theorem checked_sound_run {p : Prog} (hchk : unchecked (flat p) = [])
   · apply success_means_no_failure hchk hwrap hrun
     cases o <;> simp_all [Out.result]
 
-/-- hypotheses satisfiable, non-trivially: `Segment.WriteTo` whose footer write fails -/
-theorem Segment_WriteTo_failing_run :
-    Run (progOf "Segment.WriteTo")
+/-- hypotheses satisfiable, non-trivially: `writeToShape` is disciplined, and has a run whose footer
+    write fails … -/
+theorem writeToShape_disc : Disc writeToShape := by decide +kernel
+
+theorem writeToShape_failing_run :
+    Run writeToShape
       [⟨false, "WriteTo", false⟩, ⟨false, "persistFooter", true⟩, ⟨false, "Errorf", true⟩]
       (.returned true) :=
   run_Run (fuel := 10) (orc := [0, 1]) (orc' := []) (o := .ret true) (by decide +kernel)
 
 /-- … and one that succeeds -/
-theorem Segment_WriteTo_ok_run :
-    Run (progOf "Segment.WriteTo")
+theorem writeToShape_ok_run :
+    Run writeToShape
       [⟨false, "WriteTo", false⟩, ⟨false, "persistFooter", false⟩, ⟨false, "Flush", false⟩]
       (.returned false) :=
   run_Run (fuel := 10) (orc := []) (orc' := []) (o := .ret false) (by decide +kernel)
 
-/-! ## 4. the functions of the package -/
-
-/-- functions without an exception … -/
-def covered : List String := (ErrFlow.flows.filter (fun f => unchecked f.2 = [])).map (·.1)
-/-- … and with one -/
-def notCovered : List String := (ErrFlow.flows.filter (fun f => unchecked f.2 ≠ [])).map (·.1)
-
-/-- all 90 functions without an exception are sound: a failing call makes them return a non-nil
-    error at once (modulo the discarded results pinned in `dropped_pinned`) -/
-theorem sound_covered : ∀ n ∈ covered, Sound (progOf n) := by
-  have h : ∀ n ∈ covered, Disc (progOf n) := by decide +kernel
-  exact fun n hn => sound_of_disc (h n hn)
-
-theorem covered_length : covered.length = 90 ∧ notCovered.length = 11 := by decide +kernel
-
-/-- the functions NOT covered are exactly those named in `unchecked_pinned` -/
-theorem notCovered_eq :
-    notCovered = (allUnchecked.map (·.1)).eraseDups ∧
-    notCovered =
-      ["DictionaryIterator.Next", "PostingsIterator.nextAtOrAfter", "Segment.Dictionary",
-       "Segment.visitDocument", "enumerator.Close", "enumerator.Next", "interim.reset",
-       "mergeTermFreqNormLocs", "newWithChunkMode", "persistMergedRestField",
-       "setupActiveForField"] := by
-  constructor <;> decide +kernel
-
-/-- every function is in one of the two lists -/
-theorem covered_or_not : ∀ f ∈ ErrFlow.flows, f.1 ∈ covered ∨ f.1 ∈ notCovered := by
-  decide +kernel
-
-/-- of the write path (`write_path_covered`), only `persistMergedRestField` has exceptions -/
-theorem write_path_exceptions :
-    (["Segment.WriteTo", "Merger.WriteTo", "mergeToWriter", "persistMergedRest",
-      "persistMergedRestField", "persistFooter", "persistFields", "writePostings",
-      "mergeStoredAndRemap", "interim.convert", "interim.writeStoredFields",
-      "interim.writeDicts"].filter (· ∈ notCovered)) = ["persistMergedRestField"] := by
-  decide +kernel
-
-/-! ### the write path, function by function -/
-
-theorem sound_Segment_WriteTo : Sound (progOf "Segment.WriteTo") :=
-  sound_of_disc (by decide +kernel)
-theorem sound_Merger_WriteTo : Sound (progOf "Merger.WriteTo") :=
-  sound_of_disc (by decide +kernel)
-theorem sound_merge : Sound (progOf "merge") :=
-  sound_of_disc (by decide +kernel)
-theorem sound_mergeSegmentBasesWriter : Sound (progOf "mergeSegmentBasesWriter") :=
-  sound_of_disc (by decide +kernel)
-theorem sound_mergeToWriter : Sound (progOf "mergeToWriter") :=
-  sound_of_disc (by decide +kernel)
-theorem sound_mergeStoredAndRemap : Sound (progOf "mergeStoredAndRemap") :=
-  sound_of_disc (by decide +kernel)
-theorem sound_mergeStoredAndRemapSegment : Sound (progOf "mergeStoredAndRemapSegment") :=
-  sound_of_disc (by decide +kernel)
-theorem sound_Segment_copyStoredDocs : Sound (progOf "Segment.copyStoredDocs") :=
-  sound_of_disc (by decide +kernel)
-theorem sound_persistMergedRest : Sound (progOf "persistMergedRest") :=
-  sound_of_disc (by decide +kernel)
-theorem sound_finishTerm : Sound (progOf "finishTerm") :=
-  sound_of_disc (by decide +kernel)
-theorem sound_prepareNewTerm : Sound (progOf "prepareNewTerm") :=
-  sound_of_disc (by decide +kernel)
-theorem sound_writeMergedDict : Sound (progOf "writeMergedDict") :=
-  sound_of_disc (by decide +kernel)
-theorem sound_buildMergedDocVals : Sound (progOf "buildMergedDocVals") :=
-  sound_of_disc (by decide +kernel)
-theorem sound_writeDvLocs : Sound (progOf "writeDvLocs") :=
-  sound_of_disc (by decide +kernel)
-theorem sound_persistFields : Sound (progOf "persistFields") :=
-  sound_of_disc (by decide +kernel)
-theorem sound_persistFooter : Sound (progOf "persistFooter") :=
-  sound_of_disc (by decide +kernel)
-theorem sound_footerCRC : Sound (progOf "footerCRC") :=
-  sound_of_disc (by decide +kernel)
-theorem sound_writePostings : Sound (progOf "writePostings") :=
-  sound_of_disc (by decide +kernel)
-theorem sound_writeRoaringWithLen : Sound (progOf "writeRoaringWithLen") :=
-  sound_of_disc (by decide +kernel)
-theorem sound_writeUvarints : Sound (progOf "writeUvarints") :=
-  sound_of_disc (by decide +kernel)
-theorem sound_interim_convert : Sound (progOf "interim.convert") :=
-  sound_of_disc (by decide +kernel)
-theorem sound_interim_writeStoredFields : Sound (progOf "interim.writeStoredFields") :=
-  sound_of_disc (by decide +kernel)
-theorem sound_interim_writeDicts : Sound (progOf "interim.writeDicts") :=
-  sound_of_disc (by decide +kernel)
-theorem sound_interim_writeDictsField : Sound (progOf "interim.writeDictsField") :=
-  sound_of_disc (by decide +kernel)
-theorem sound_interim_writeDictsTermField : Sound (progOf "interim.writeDictsTermField") :=
-  sound_of_disc (by decide +kernel)
-theorem sound_encodeStoredFieldValues : Sound (progOf "encodeStoredFieldValues") :=
-  sound_of_disc (by decide +kernel)
-theorem sound_countHashWriter_Write : Sound (progOf "countHashWriter.Write") :=
-  sound_of_disc (by decide +kernel)
-theorem sound_chunkedContentCoder_Add : Sound (progOf "chunkedContentCoder.Add") :=
-  sound_of_disc (by decide +kernel)
-theorem sound_chunkedContentCoder_Close : Sound (progOf "chunkedContentCoder.Close") :=
-  sound_of_disc (by decide +kernel)
-theorem sound_chunkedContentCoder_Write : Sound (progOf "chunkedContentCoder.Write") :=
-  sound_of_disc (by decide +kernel)
-theorem sound_chunkedContentCoder_flushContents : Sound (progOf "chunkedContentCoder.flushContents") :=
-  sound_of_disc (by decide +kernel)
-theorem sound_chunkedDocumentCoder_Add : Sound (progOf "chunkedDocumentCoder.Add") :=
-  sound_of_disc (by decide +kernel)
-theorem sound_chunkedDocumentCoder_Write : Sound (progOf "chunkedDocumentCoder.Write") :=
-  sound_of_disc (by decide +kernel)
-theorem sound_chunkedDocumentCoder_flush : Sound (progOf "chunkedDocumentCoder.flush") :=
-  sound_of_disc (by decide +kernel)
-theorem sound_chunkedDocumentCoder_newLine : Sound (progOf "chunkedDocumentCoder.newLine") :=
-  sound_of_disc (by decide +kernel)
-theorem sound_chunkedDocumentCoder_writeToBuf : Sound (progOf "chunkedDocumentCoder.writeToBuf") :=
-  sound_of_disc (by decide +kernel)
-theorem sound_chunkedIntCoder_Add : Sound (progOf "chunkedIntCoder.Add") :=
-  sound_of_disc (by decide +kernel)
-theorem sound_chunkedIntCoder_Close : Sound (progOf "chunkedIntCoder.Close") :=
-  sound_of_disc (by decide +kernel)
-theorem sound_chunkedIntCoder_Write : Sound (progOf "chunkedIntCoder.Write") :=
-  sound_of_disc (by decide +kernel)
-theorem sound_chunkedIntCoder_writeAt : Sound (progOf "chunkedIntCoder.writeAt") :=
-  sound_of_disc (by decide +kernel)
-theorem sound_ZSTDCompress : Sound (progOf "ZSTDCompress") :=
-  sound_of_disc (by decide +kernel)
-theorem sound_New : Sound (progOf "New") :=
-  sound_of_disc (by decide +kernel)
-
-/-! ## 5. the exceptions: how each unchecked error IS examined in the source
-
-  For the 11 functions of `notCovered` the discipline is genuinely violated, so `checked_sound` says
-  nothing; each error is examined in another way (source read at HEAD of /repo).  None loses an error
-  other than a sentinel it means to swallow.
-
-  * `Segment.visitDocument` / `ReadUvarint` (segment.go): `field, err := binary.ReadUvarint(r);
-    if err == io.EOF { break }; if err != nil { return err }`.  The `break` sits between the call and
-    its check - exactly the shape of `unsound_example`.  HARMLESS BY DESIGN: `io.EOF` from the first
-    varint of a (field, offset, length) triple is the regular end of the meta section, the function
-    then returns nil; every other error reaches the check that follows.  The model reproduces the
-    swallowed failure (`visitDocument_model_run`): this one is a TRUE report of the checker.
-  * `mergeTermFreqNormLocs` / `Next` (twice; merge.go): `next, err := postItr.Next();
-    for next != nil && err == nil { …; next, err = postItr.Next() }; return …, err`.  Examined by the
-    LOOP CONDITION and returned at the end; nothing runs in between.  HARMLESS.  The model, which does
-    not know conditions, has an execution that enters the loop after the failure and overwrites the
-    error (`mergeTermFreqNormLocs_model_run`); Go excludes it by `err == nil`: a FALSE report.
-  * `persistMergedRestField` / `newEnumerator`, `Next` (merge.go): `enumerator, err := newEnumerator(itrs);
-    for err == nil { …; err = enumerator.Next() }; if err != vellum.ErrIteratorDone { return err }`.
-    Loop condition, then compared with the sentinel: every error but `ErrIteratorDone` (the regular
-    end of the enumeration) is returned.  HARMLESS.  All other calls of the function are checked at once.
-  * `enumerator.Next` / `Next` (enumerator.go): `err := m.itrs[vi].Next();
-    if err != nil && err != vellum.ErrIteratorDone { return err }` - a COMBINED CONDITION (the translator
-    marks `{:err` only for the bare `x != nil`).  The sentinel is swallowed on purpose (an exhausted
-    iterator is recognised by `updateMatches`); anything else is returned at once.  HARMLESS.
-  * `setupActiveForField` / `Iterator` (merge.go): `itr, err = dict.fst.Iterator(nil, nil);
-    if err != nil && err != vellum.ErrIteratorDone { return …, err }` - combined condition;
-    `ErrIteratorDone` of an empty FST is tolerated, the `itr != nil` test follows.  HARMLESS.
-  * `PostingsIterator.nextAtOrAfter` / `nextDocNumAtOrAfter` (posting.go):
-    `if err != nil || !exists { return nil, err }` - combined condition, the error is returned.  HARMLESS.
-  * `Segment.Dictionary` / `dictionary` (segment.go): `dict, err := s.dictionary(field);
-    if err == nil && dict == nil { return emptyDictionary, nil }; return dict, err` - RETURNED AT THE
-    END; the block in between is guarded by `err == nil`.  HARMLESS.
-  * `newWithChunkMode` / `initSegmentBase` (new.go): `sb, err := initSegmentBase(…);
-    if err == nil && s.reset() == nil { … interimPool.Put(s) }; return sb, size, err` - returned at the
-    end; the `s.reset()` in the condition is the discarded result of `dropped_pinned` (its error only
-    decides whether the builder goes back to the pool).  HARMLESS.
-  * `interim.reset` / `Reset` (new.go): `if s.builder != nil { err = s.builder.Reset(&s.builderBuf) }`
-    then four field resets (no calls) and `return err` - returned at the end.  HARMLESS.
-  * `enumerator.Close` / `Close` (enumerator.go): `for … { err := itr.Close(); if rv == nil { rv = err } };
-    return rv` - the FIRST error is kept and returned at the end, but the remaining iterators are still
-    closed: "returns non-nil after a failure" holds, "fails fast" is violated ON PURPOSE.
-  * `DictionaryIterator.Next` / `Next` (dict.go): `i.err = i.itr.Next(); return &i.entry, nil` - the
-    error is stored in the iterator and examined at the START OF THE NEXT CALL
-    (`if i.err != nil && i.err != vellum.ErrIteratorDone { return nil, i.err }`).  The call that hit the
-    failure reports success with the entry read before it; the failure surfaces one call later.  Not lost
-    as long as the caller keeps calling `Next` until it gets `nil, nil` (the iterator contract, which the
-    fault legs of C19 exercise); the error variable here outlives the call (assumption A2 fails).
--/
-
-/-- `Segment.visitDocument`: in the model - as in Go when the error is `io.EOF` - the first
-    `ReadUvarint` of a round can fail and the function return nil -/
-theorem visitDocument_model_run :
-    Run (progOf "Segment.visitDocument")
-      [⟨false, "getDocStoredMetaAndUnCompressed", false⟩, ⟨false, "ReadUvarint", true⟩]
-      (.returned false) :=
-  run_Run (fuel := 20) (orc := [1, 0, 1, 1, 1, 0, 0, 2, 0]) (orc' := []) (o := .ret false)
-    (by decide +kernel)
-
-/-- `mergeTermFreqNormLocs`: the model cannot see the loop condition `err == nil`, so it has an
-    execution that Go does not have: `Next` fails, the loop is entered all the same, `Add` succeeds
-    and overwrites the error, nil is returned.  (Why the function needs a hand review.) -/
-theorem mergeTermFreqNormLocs_model_run :
-    Run (progOf "mergeTermFreqNormLocs")
-      [⟨false, "Next", true⟩, ⟨false, "Add", false⟩, ⟨false, "Next", false⟩]
-      (.returned false) :=
-  run_Run (fuel := 20) (orc := [1, 1]) (orc' := []) (o := .ret false) (by decide +kernel)
-
-/-! ## 6. a violation that loses the error (the shape of a seeded change we evaluated) -/
+/-! ## 4. a violation that loses the error (the shape of a seeded change we evaluated) -/
 
 /-- `F f { B } {:err R err }` : a `break` between the call and its check -/
 def unsoundBody : Prog := [.call "f", .block false [.jump], .block true [.ret true]]
@@ -445,5 +248,17 @@ theorem unsound_not_sound : ¬ Sound unsoundLoop := by
 theorem repaired_sound :
     Sound [.block false [.call "f", .block true [.ret true], .block false [.jump]], .ret false] :=
   sound_of_disc (by decide +kernel)
+
+/-! ## 5. areas
+
+  An area module fixes a list of function names `fns`, restricts the generated table to them
+  (`restrict flows fns`), and proves for the restricted table: all names present, all flows parse, all
+  wrappers are `Errorf`, the pinned unchecked / discarded lists, and `Sound` for every function without
+  an unchecked call.  The generic step is: -/
+
+/-- if every function of `names` has a disciplined program in the table `fl`, each is sound -/
+theorem sound_of_disc_all {fl : Flows} {names : List String}
+    (h : ∀ n ∈ names, Disc (progIn fl n)) : ∀ n ∈ names, Sound (progIn fl n) :=
+  fun n hn => sound_of_disc (h n hn)
 
 end Ice.Props.ErrFlow
